@@ -20,7 +20,7 @@ MUTANTS = [
      '        key = ("psi_simplified", seq, atol)', "expect-fail"),
     (MPS, "CircuitMPS.sample_chaotic::cache-R1",
      "        # init the conditional marginal cache\n        self._maybe_init_storage()\n",
-     "        # init the conditional marginal cache\n", "expect-fail"),
+     "        # init the conditional marginal cache\n", "benign"),  # (since F14 every shot re-validates before its first access)
     # R1: a NEW method that reads the cache without validating (found by reflection, no name list)
     (CORE, "CircuitBase.peek_cache::cache-R1",
      '    def clear_storage(self):\n        """Clear all cached data."""',
@@ -35,7 +35,7 @@ MUTANTS = [
     (MPS, "CircuitMPS.sample_chaotic::cache-R1",
      "    def calc_qubit_ordering(self, qubits=None):\n        \"\"\"MPS already has a natural ordering.\"\"\"\n",
      "    def calc_qubit_ordering(self, qubits=None):\n        \"\"\"MPS already has a natural ordering.\"\"\"\n        self.apply_gate(\"IDEN\", 0)\n",
-     "expect-fail"),
+     "benign"),  # (since F14 the shot loop re-validates after the helper ran)
     # R2: a new cache access after a yield in a generator that had none
     (MPS, "CircuitPermMPS.sample::cache-R2",
      "        for config, _ in psi.sample(C, seed=seed):\n            yield \"\".join(\n                str(config[site_from_qubit[i]]) for i in range(self.N)\n            )",
@@ -77,14 +77,14 @@ MUTANTS = [
     # R4: new breakage of the constructor (stamp starts at 0 == num_gates of an empty circuit: born 'valid')
     (CORE, "CircuitBase.__init__::cache-R4",
      "        self._sample_n_gates = -1\n        self._storage = {}", "        self._sample_n_gates = 0\n        self._storage = {}",
-     "expect-fail"),
+     "benign"),  # (since F13 the constructor initialises every cache field: an empty circuit may be born valid)
     # R5: a key that forgets a query argument the value depends on
     (EXACT, "Circuit.get_rdm_lightcone_simplified::cache-R5",
      'key = ("rdm_lightcone_simplified", tuple(sorted(where)), seq, atol)', 'key = ("rdm_lightcone_simplified", seq, atol)',
      "expect-fail"),
     (EXACT, "Circuit.sample_gate_by_gate::cache-R5",
-     '        key = ("gate_by_gate_circuits", group_size)\n        try:\n            circs_wheres = self._storage[key]\n        except KeyError:\n            circs_wheres = self.get_gate_by_gate_circuits(group_size)\n            self._storage[key] = circs_wheres\n\n        for _ in range(C):',
-     '        key = ("gate_by_gate_circuits",)\n        try:\n            circs_wheres = self._storage[key]\n        except KeyError:\n            circs_wheres = self.get_gate_by_gate_circuits(group_size)\n            self._storage[key] = circs_wheres\n\n        for _ in range(C):',
+     '        key = ("gate_by_gate_circuits", group_size)\n\n        for _ in range(C):',
+     '        key = ("gate_by_gate_circuits",)\n\n        for _ in range(C):',
      "expect-fail"),
     (EXACT, "Circuit.calc_qubit_ordering::cache-R5",
      'key = ("lightcone_ordering", method, qubits)', 'key = ("lightcone_ordering", qubits)', "expect-fail"),
@@ -121,13 +121,7 @@ MUTANTS = [
      "        new._sampled_conditionals = self._sampled_conditionals.copy()\n",
      "        new._sampled_conditionals = self._sampled_conditionals.copy()\n        new._marginal_storage_size = getattr(self, \"_marginal_storage_size\", 0)\n",
      "benign"),
-    (EXACT, "Circuit.sample::cache-R2",
-     "        for _ in range(C):\n            for where in groups:", "        for _ in range(C):\n            self._maybe_init_storage()\n            for where in groups:",
-     "benign"),
-    (MPS, "CircuitMPS.sample_chaotic::cache-R2",
-     "        for _ in range(C):\n            # generate a random bit-string for the fixed qubits\n",
-     "        for _ in range(C):\n            self._maybe_init_storage()\n            # generate a random bit-string for the fixed qubits\n",
-     "benign"),
+    # (two 'benign' mutants that ADDED the per-shot re-validation were dropped: the repair F14 put it into the source)
     # ------------------------------------------------------------------ E2 gates (provider_gates)
     (GATES, "rx_gate_param_gen::unitary-for-all-params[RX]",
      '        s = do("complex", zero, -do("sin", phi / 2))\n\n        return recursive_stack(((c, s), (s, c)))',
